@@ -165,8 +165,11 @@ impl<'p, 'a> Evaluator<'a, 'p> {
         if let Err(e) = this.run() {
             // Thunks whose evaluation was interrupted must be evaluable again.
             for state in this.state_stack.drain(..) {
-                if let State::GotThunk(thunk, pending) = state {
-                    thunk.reset_pending(pending);
+                match state {
+                    State::GotThunk(thunk, pending) => thunk.reset_pending(pending),
+                    // Asserts that did not finish must be checked again.
+                    State::ObjectAssertsPending(object) => object.asserts_checked.set(false),
+                    _ => {}
                 }
             }
             return Err(e);
@@ -257,6 +260,7 @@ impl<'p, 'a> Evaluator<'a, 'p> {
                         return Err(self.report_error(EvalErrorKind::InfiniteRecursion));
                     }
                 },
+                State::ObjectAssertsPending(_) => {}
                 State::GotThunk(thunk, _) => {
                     let value = self.value_stack.last().unwrap();
                     thunk.set_done(value.clone());
@@ -1640,6 +1644,16 @@ impl<'p, 'a> Evaluator<'a, 'p> {
     fn check_object_asserts(&mut self, object: &GcView<ObjectData<'p>>) {
         if !object.asserts_checked.get() {
             object.asserts_checked.set(true);
+            let has_asserts = object
+                .super_layers
+                .iter()
+                .chain(std::iter::once(&object.self_layer))
+                .any(|layer| !layer.asserts.is_empty());
+            if has_asserts {
+                // Popped (as a no-op) only after every assert below has passed.
+                self.state_stack
+                    .push(State::ObjectAssertsPending(object.clone()));
+            }
             let layer_iter = object
                 .super_layers
                 .iter()
